@@ -245,6 +245,66 @@ func c04(r *engine.Report, p *engine.Program) {
 		r.Check("R3-restart-pending", name, impl.Pos(), ok, why, why)
 	}
 	r.Min("R3-restart-pending", 3)
+	// R7 the runner process outlives the daemon: it is started in its own session and nothing ties
+	// its life to its parent (no parent-death signal)
+	{
+		setsid, pdeath := false, []string{}
+		p.AllInstrs(func(fn *ssa.Function, in ssa.Instruction) {
+			if engine.IsMock(fn) || !inPkg(fn, "workceptor") {
+				return
+			}
+			st, isS := in.(*ssa.Store)
+			if !isS {
+				return
+			}
+			fa, isF := st.Addr.(*ssa.FieldAddr)
+			if !isF {
+				return
+			}
+			fv := engine.FieldAddrVar(fa)
+			if fv == nil || fv.Pkg() == nil || fv.Pkg().Path() != "syscall" {
+				return
+			}
+			switch fv.Name() {
+			case "Setsid":
+				if c, isC := st.Val.(*ssa.Const); isC && c.Value != nil && c.Value.String() == "true" {
+					setsid = true
+				}
+			case "Pdeathsig":
+				if k, isK := engine.ConstInt(st.Val); !isK || k != 0 {
+					pdeath = append(pdeath, engine.FuncName(fn)+" at "+p.Pos(st.Pos()))
+				}
+			}
+		})
+		r.Check("R7-runner-detached", "command runner: own session, no parent-death signal", token.NoPos, setsid && len(pdeath) == 0,
+			"SysProcAttr{Setsid: true} and no Pdeathsig: a running command survives the death of the daemon and is followed to completion after restart",
+			fmt.Sprintf("Setsid=%v, Pdeathsig set in %v: when the daemon dies the kernel signals every runner, the job is interrupted and recorded as Failed/Killed instead of being picked up after restart", setsid, pdeath))
+	}
+	// R8 only the runner process (and the kubernetes worker) reports a unit as Running: the daemon
+	// leaves a freshly started command unit Pending, which is what Restart treats as "never started"
+	{
+		runningC := p.Const("workceptor", "WorkStateRunning")
+		allowedRun := map[string]bool{"workceptor.commandRunner": true}
+		var bad, sites []string
+		for _, fn := range p.Funcs() {
+			if engine.IsMock(fn) || !inPkg(fn, "workceptor") {
+				continue
+			}
+			for _, sw := range stateWrites(p, fn) {
+				if runningC == nil || sw.state != constIntVal(runningC) {
+					continue
+				}
+				name := engine.FuncName(engine.Outermost(fn))
+				sites = append(sites, name)
+				if !allowedRun[name] && !strings.HasPrefix(name, "(*workceptor.KubeUnit)") {
+					bad = append(bad, name+" at "+p.Pos(sw.in.Pos()))
+				}
+			}
+		}
+		r.Check("R8-running-writer", "WorkStateRunning: written only by the runner process and the kubernetes worker", token.NoPos, len(bad) == 0 && len(sites) >= 2,
+			fmt.Sprintf("%d constant writes of Running, all in commandRunner / KubeUnit", len(sites)),
+			"Running is written by "+strings.Join(bad, ", ")+": if the runner dies before its own first status write the record says Running with nobody behind it; after a restart the unit is reported Running forever and its results never end")
+	}
 	// R6 the output of a remote unit is resumed from what is on disk (nothing kept only in memory)
 	if mrs := p.Func("(*workceptor.remoteUnit).monitorRemoteStdout"); mrs != nil {
 		r.Check("R6-output-resume", "monitorRemoteStdout: the mirror resumes from the size of the local copy on disk", mrs.Pos(), mirrorOffsetOK(mrs),
